@@ -237,3 +237,35 @@ Example repertoire_examples :
   in_rep [101] = true /\ in_rep [195;169] = true (* e-acute *) /\ in_rep [194;164] = true (* currency sign *)
   /\ in_rep [206;169] = true (* ohm, as the table has it: U+03A9 *) /\ in_rep [197;145] = true (* o double acute *) /\ in_rep [36] = false.
 Proof. vm_compute. repeat split; reflexivity. Qed.
+
+(* ---- what the reader's character handler denotes: a text field made of spacing characters and of
+   (floating diacritic, spacing character) pairs decodes to the table strings, resp. to the composition (NFC, as
+   tabulated from the vendored normaliser) of the character with the diacritic; no accent is left pending ---- *)
+Inductive cunit := U1 (b : N) | U2 (a b : N).
+Definition tab (b : N) : str := match alookup b stl_table with Some s => s | None => [] end.
+Definition cunit_ok (u : cunit) : bool :=
+  match u with
+  | U1 b => o_some (alookup b stl_table) && negb (is_accent_byte b)
+  | U2 a b => o_some (alookup a stl_table) && is_accent_byte a && o_some (alookup b stl_table)
+  end.
+Definition cunit_bytes (u : cunit) : str := match u with U1 b => [b] | U2 a b => [a; b] end.
+Definition cunit_text (u : cunit) : str := match u with U1 b => tab b | U2 a b => nfc_lookup a b end.
+
+Lemma decode_unit u : cunit_ok u = true -> decode_bytes None (cunit_bytes u) = (cunit_text u, None).
+Proof.
+  destruct u as [b|a b]; cbn [cunit_ok cunit_bytes cunit_text]; intros Hu.
+  - apply andb_true_iff in Hu. destruct Hu as [Hb Hna]. apply negb_true_iff in Hna.
+    cbn [decode_bytes]. unfold decode1, tab. destruct (alookup b stl_table); [|discriminate]. rewrite Hna. rewrite app_nil_r. reflexivity.
+  - apply andb_true_iff in Hu. destruct Hu as [Hu Hb]. apply andb_true_iff in Hu. destruct Hu as [Ha Hacc].
+    cbn [decode_bytes]. unfold decode1. destruct (alookup a stl_table); [|discriminate]. rewrite Hacc.
+    destruct (alookup b stl_table); [|discriminate]. cbn [app]. rewrite app_nil_r. reflexivity.
+Qed.
+Theorem decode_units us : forallb cunit_ok us = true ->
+  decode_bytes None (flat_map cunit_bytes us) = (concat (map cunit_text us), None).
+Proof.
+  induction us as [|u us IH]; intros H; [reflexivity|]. cbn [forallb] in H. apply andb_true_iff in H. destruct H as [Hu Hus].
+  cbn [flat_map map concat]. rewrite decode_bytes_app, (decode_unit u Hu), (IH Hus). reflexivity.
+Qed.
+(* unknown bytes (0x86..0x9F, 0xA6, 0xC0, 0xC9, 0xCC, 0xD8..0xDB, 0xE5, 0x7F and the padding 0x8F) decode to nothing *)
+Lemma decode_unknown acc b : alookup b stl_table = None -> decode1 acc b = ([], acc).
+Proof. intros H. unfold decode1. rewrite H. reflexivity. Qed.
